@@ -8,6 +8,7 @@ import LfsModel.FilterModel
 import LfsModel.Sha256
 import LfsModel.Creds
 import LfsModel.Config
+import LfsModel.RedirectModel
 import LfsModel.Gen
 open Lfs
 
@@ -138,12 +139,50 @@ def c11 : List String → String
       s!"vals=[{String.intercalate "," (canonVals st.vals)}] exts=[{String.intercalate "," (sortStr (st.exts.map hex))}] remotes=[{String.intercalate "," (sortStr (st.remotes.map hex))}]"
   | _ => "bad-op"
 
+def parseLst (s : String) : Option Rd2.Lst :=
+  match s.splitOn ":" with
+  | [sc, name, port] =>
+    let scheme? := if sc == "http" then some Rd2.Scheme.http else if sc == "https" then some Rd2.Scheme.https else none
+    let port? : Option (Option Nat) := if port == "implicit" then some none else port.toNat?.map some
+    match scheme?, port? with
+    | some sc, some p => some { scheme := sc, name := name.hash.toNat, port := p }
+    | _, _ => none
+  | _ => none
+
+def parseNode (s : String) : Option Rd2.Node :=
+  match s.splitOn ":" with
+  | [l, kind, _status, to, loc, thn] =>
+    let kind? := if kind == "final" then some Rd2.Kind.final else if kind == "redirect" then some .redirect
+      else if kind == "needauth" then some .needauth else none
+    let loc? := if loc == "abs" then some Rd2.Loc.abs else if loc == "rel" then some .rel else if loc == "bad" then some .bad else none
+    match l.toNat?, kind?, to.toNat?, loc? with
+    | some l, some k, some t, some lc => some { l := l, kind := k, to := t, loc := lc, thenRedirect := thn == "redirect" }
+    | _, _, _, _ => none
+  | _ => none
+
+def showReq (r : Rd2.Req) : String :=
+  s!"L{r.lst}/n{r.node}/" ++ (match r.auth with | none => "none" | some l => s!"L{l}")
+
+def c10 : List String → String
+  | ["run", entry, access, cr, nodes, lsts] =>
+    match (nodes.splitOn ",").mapM parseNode, (lsts.splitOn ",").mapM parseLst with
+    | some ns, some ls =>
+      let w : Rd2.World := { lsts := ls, nodes := ns }
+      let l0 := (ns.getD 0 ⟨0, .final, 0, .abs, false⟩).l
+      let tr :=
+        if entry == "header" then Rd2.runHeader w { node := 0, lst := l0, auth := some l0 }
+        else Rd2.runAuth w (cr == "1") 4 (access == "basic") { node := 0, lst := l0, auth := none }
+      if tr.isEmpty then "-" else String.intercalate " " (tr.map showReq)
+    | _, _ => "bad-op"
+  | _ => "bad-op"
+
 def answer (line : String) : String :=
   match line.splitOn " " with
   | "C07" :: rest => c07 rest
   | "FLT" :: rest => flt rest
   | "C17" :: rest => c17 rest
   | "C11" :: rest => c11 rest
+  | "C10" :: rest => c10 rest
   | _ => "bad-op"
 
 partial def loop (h : IO.FS.Stream) (out : IO.FS.Stream) : IO Unit := do
